@@ -195,7 +195,7 @@ def run_property(prop, tier, seed):
         for fid, info in unit.fns.items():
             kind = info["kind"]
             fl = fails_by_fid.get(fid, [])
-            relevant = prop in info["props"] or any(prop in (c.props or []) for c in info["clauses"].values())
+            relevant = prop in info["props"] or any(prop in ps for ps in info["clause_props"].values())
             if kind == "stub":
                 o = info["obj"]
                 stubs.append({"unit": uname, "function": fid, "file": o.file,
@@ -212,7 +212,7 @@ def run_property(prop, tier, seed):
             if kind == "finding":
                 flabel = info.get("finding_label") or fid.split("__F_")[-1]
                 fcl = info["clauses"].get(flabel)
-                if prop not in ((fcl.props if fcl is not None and fcl.props else None) or info["props"]):
+                if prop not in (info["clause_props"].get(flabel) or info["props"]):
                     continue
                 obid = "%s/%s#%s" % (uname, fid, flabel)
                 finding_obligations += 1
@@ -245,12 +245,12 @@ def run_property(prop, tier, seed):
                 if cl is None and not f["label"].startswith("safety"):
                     named_asserts.add((fid, f["label"]))
                 ltoks = [t for t in re.match(r"((?:C\d\d-)*)", f["label"]).group(1).split("-") if t]
-                if cl is not None and cl.props:
-                    props = cl.props
-                elif cl is None and ltoks:      # a named assertion carries its properties in its label
+                if cl is not None:
+                    props = info["clause_props"].get(f["label"], info["props"])
+                elif ltoks:      # a named assertion carries its properties in its label
                     props = set(ltoks) | set(info["props"])
                 else:   # a failed safety condition / invariant leaves every clause of the function unproved
-                    props = set(info["props"]).union(*[set(c.props or []) for c in info["clauses"].values()])
+                    props = set(info["props"]).union(*[set(ps) for ps in info["clause_props"].values()])
                 if prop not in props:
                     continue
                 failed_labels.add(f["label"])
